@@ -391,4 +391,4 @@ def body(case):
 
 
 def tests(tier):
-    return [TestSpec("equality", gen_case, body, {"quick": 4000, "thorough": 400000}, tape=2048)]
+    return [TestSpec("equality", gen_case, body, {"quick": 4000, "thorough": 400000}, tape=2048, fuzz={"thorough": 40000})]
